@@ -50,6 +50,10 @@ class C07(Prop):
             if rel == "replicate":
                 w = [float(rng.randint(1, 3)) for _ in range(n)]
             c = {"stream": rel, **cfg, "y": ys, "cols": cols, "w": w}
+            if rel == "replicate" and rng.random() < 0.3:
+                # counts and integer weights held in a narrow (un)signed integer dtype: sum(w * y) is beyond the dtype's range
+                c.update(kind=rng.choice(["squared_error", "hes"]), h=2.0, level=rng.choice([0.5, 0.25, 0.75]), elem_f=None, eta=0.0,
+                         y=[float(rng.randint(0, 40)) for _ in range(n)], narrow=rng.choice(["uint8", "uint8", "int8", "uint16"]))
             if rel == "plain":
                 # the score as a plain callable; functional / level passed explicitly, or not (then: ValueError where they are needed)
                 mode = rng.choice(["both", "both", "functional", "level", "none"])
